@@ -830,6 +830,8 @@ class Interp:
             return ("method", obj, a)
         if a in ("copy", "append", "keys", "astype") or a == "T":
             return ("method", obj, a)
+        if a == "dtype" and (self.dom.is_value(obj) or _is_conc(obj) or isinstance(obj, (SArr, Vec))):
+            return "<dtype of a value>"         # only handed on to allocations (dtype=...): the values do not depend on it here
         if a in ("all", "any") and self.dom.is_value(obj) and not self.is_mask(obj) and not isinstance(obj, (bool, int, Fraction)):
             # x.all() / x.any() of a FLOAT array: the truth value of a float is "non-zero" -- the test is "no entry is exactly 0" /
             # "some entry is not 0", taken once for ALL the entries of the call
@@ -1437,7 +1439,7 @@ class Interp:
     def call_builtin(self, name, args, kwargs, node, func):
         """numpy's out= convention: the result is WRITTEN INTO the out array (in place, under the conditions of the
         enclosing data-dependent branches) and that array is returned"""
-        if "where" in kwargs and name.startswith("np") and ("out" not in kwargs or kwargs["out"] is None):
+        if "where" in kwargs and name.startswith("np") and ("out" not in kwargs or kwargs["out"] is None) and name.split(".")[-1] not in ("copyto", "where", "sum", "mean", "any", "all", "min", "max"):
             raise AnalysisError("%s:%d ufunc with where= and no out=: the entries not selected are uninitialised memory" % (func.qualname, node.lineno))
         if "out" in kwargs and kwargs["out"] is not None and name.startswith("np"):
             kwargs = dict(kwargs)
@@ -1733,6 +1735,24 @@ class Interp:
                 e.violation = ("POINTWISE-SCATTER", func.qualname, "`%s` (line %d): np.place puts the FIRST N entries of the values array, in order, at the N positions where the mask holds -- not the entries at those positions (that is `arr[mask] = vals[mask]` / np.where / np.copyto(..., where=)): the value stored for an entry depends on how many masked entries precede it, i.e. on the other faces / cells" % (unparse(node)[:60], ln),
                                "np-place", {"C01", "C02", "C03", "C10", "C12", "C13", "C14", "C15", "C16", "C17", "C18", "C11"})
             raise e
+        if base in ("result_type", "promote_types", "find_common_type"):
+            return "<dtype of a value>"
+        if base == "logical_not" and len(args) == 1 and (self.is_mask(args[0]) or isinstance(args[0], bool)):
+            return (not args[0]) if isinstance(args[0], bool) else self._mask(d.cnot(args[0]))
+        if base == "copyto" and len(args) == 2 and set(kwargs) <= {"where"}:
+            # np.copyto(dst, src, where=mask): dst[mask] = src[mask] -- into a local array of the function's own
+            site = getattr(self, "_call_site", None)
+            dst, src = args
+            sel = kwargs.get("where", True)
+            if site is not None and site[0] is node and isinstance(node.args[0], ast.Name) and node.args[0].id in site[1] and self._own_local(node.args[0].id, func, ln) \
+                    and (self.dom.is_value(dst) or _is_conc(dst)) and self.is_num(src) and not isinstance(src, SArr) and (sel is True or self.is_mask(sel)):
+                pc = self._path_cond()
+                cond = None if sel is True else sel
+                if pc is not None:
+                    cond = pc if cond is None else d.cand(pc, cond)
+                site[1][node.args[0].id] = self.lift(src) if cond is None else d.where(cond, self.lift(src), self.lift(dst))
+                return None
+            raise AnalysisError("%s:%d np.copyto into a value the analysis cannot update in place" % (func.qualname, ln))
         if base == "full" and len(args) == 2 and "full" not in self.np_hooks and (_is_conc(args[1]) or isinstance(args[1], float) or self.dom.is_value(args[1])):
             return args[1]          # one value in every entry (point-wise: the entry)
         if base == "clip" and len(args) == 3 and not kwargs:
